@@ -254,7 +254,7 @@ def sweeps(rng, gen_cs, gen_custom, n_base):
         base = {k: v for k, v in base.items() if k not in ("max_nodes",)}
         for mi in list(range(0, 41)) + [999, 1000, 1001]:
             out.append({**base, "solver": "cg", "max_iter": mi, "family": "sweep_max_iter"})
-        for mi in list(range(0, 41, 1)):
+        for mi in list(range(0, 41, 2)) + [1, 3]:
             out.append({**base, "solver": "bp", "max_iter": mi, "max_nodes": rng.choice([None, 50]), "family": "sweep_max_iter"})
         for mn in list(range(0, 13)) + [9999, 10000, 10001]:
             out.append({**base, "solver": "bp", "max_iter": 30, "max_nodes": mn, "family": "sweep_max_nodes"})
@@ -294,9 +294,9 @@ def extra_cases(ctx: Ctx):
     thorough = ctx.tier == "thorough"
     k = 4 if thorough else 1
     cases = []
-    cases += [gen_dup_dominant(rng) for _ in range(120 * k)]
-    cases += [gen_dup_random(rng, gen_custom) for _ in range(80 * k)]
-    cases += [with_form(rng, gen_cs(rng)) for _ in range(70 * k)] + [with_form(rng, gen_custom(rng)) for _ in range(70 * k)]
+    cases += [gen_dup_dominant(rng) for _ in range(80 * k)]
+    cases += [gen_dup_random(rng, gen_custom) for _ in range(50 * k)]
+    cases += [with_form(rng, gen_cs(rng)) for _ in range(50 * k)] + [with_form(rng, gen_custom(rng)) for _ in range(50 * k)]
     cases += [_mark(gen_single_type(rng)) for _ in range(40 * k)]
     cases += [_mark(gen_perfect_cs(rng)) for _ in range(60 * k)] + [_mark(gen_perfect_custom(rng)) for _ in range(50 * k)]
     cases += [_mark(gen_perfect_cs(rng, mags=[257, 300, 1000, 65537, 10 ** 6])) for _ in range(30 * k)]
@@ -509,8 +509,9 @@ def run_part(ctx: Ctx):
                           {"case": _strip_case(case), "sequence": order, "problems": problems})
 
     # ---- H: event-directed search over solve_bp's internals (hill climb from the seeds towards events not seen yet)
-    seeds = [gen_tree_cs(rng) for _ in range(60)] + [gen_dup_dominant(rng) for _ in range(40)]
+    seeds = [gen_tree_cs(rng) for _ in range(60)] + [gen_dup_dominant(rng) for _ in range(2500 * (3 if thorough else 1))]
     seeds += [{**gen_custom(rng), "solver": "bp", "max_nodes": None} for _ in range(40)]
+    seeds += [{**gen_dup_random(rng, gen_custom), "solver": "bp", "max_nodes": None} for _ in range(200)]
     for c in seeds:
         c["solver"] = "bp"
         c.setdefault("max_nodes", None)
@@ -518,6 +519,7 @@ def run_part(ctx: Ctx):
             c["max_iter"] = 30
     seen: dict[str, dict] = {}
     pool = []
+    conj_cases = []
 
     def absorb(results):
         for c, out, bad, ev in results:
@@ -527,9 +529,20 @@ def run_part(ctx: Ctx):
                 if e not in seen:
                     seen[e] = _strip_case(c)
             if bad and not _known(c, out):
+                if len(ctx.violations) < 3:
+                    from harness.props.C17 import _work, shrink
+                    c2, o2, b2 = _work(shrink(c))
+                    if b2:
+                        c, out, bad = c2, o2, b2
                 ctx.violation(f"solve_bp (event search, events {ev}): {bad}", {"case": _strip_case(c), "impl": out, "exact_minimum": c.get("opt")})
             if ev:
-                pool.append((len(ev), _strip_case(c)))
+                # histories in which bookkeeping keyed by column matters: equal columns both positive in a node LP of a run whose
+                # tree search changes the incumbent
+                conj = 4 if ("dup_both_positive" in ev and "tree_improved" in ev) else 0
+                if conj:
+                    ctx.count("bp_event", "dup_both_positive&tree_improved")
+                    conj_cases.append(_strip_case(c))
+                pool.append((len(ev) + conj, _strip_case(c)))
 
     def _known(c, out):
         from harness.props.C17 import _in_gap_tol_class
@@ -538,14 +551,15 @@ def run_part(ctx: Ctx):
     absorb(pmap(_event_work, seeds))
     rounds = 6 if thorough else 3
     for _ in range(rounds):
-        missing = [e for e in EVENTS if e not in seen]
-        if not missing:
-            break
+        hot = [c for sc, c in pool if sc >= 6]
+        rng.shuffle(hot)
         pool.sort(key=lambda t: -t[0])
-        parents = [c for _, c in pool[:40]] or seeds
-        absorb(pmap(_event_work, [mutate(rng, rng.choice(parents)) for _ in range(160)]))
+        del pool[2000:]
+        parents = (hot[:300] + [c for _, c in pool[:100]]) or seeds
+        absorb(pmap(_event_work, [mutate(rng, rng.choice(parents)) for _ in range(500)]))
     for e in EVENTS:
         ctx.count("bp_event_reached", e, 1 if e in seen else 0)
     ctx.extra["bp_event_witnesses"] = {e: seen[e] for e in sorted(seen)}
+    ctx.extra["bp_conj_witnesses"] = conj_cases[:12]
     ctx.notes.append("event-directed search (solve_bp internals wrapped): events reached this run = "
                      + ", ".join(e for e in EVENTS if e in seen) + "; not reached = " + (", ".join(e for e in EVENTS if e not in seen) or "none"))
